@@ -16,6 +16,9 @@ EP = "tensorly.tenalg.proximal."
 
 COLWISE = {"smoothness", "simplex", "soft_sparsity", "monotone_inc", "monotone_dec", "unimodality"}
 CONVEX = {"non_negative", "soft", "l2_square", "l2", "smoothness", "simplex", "monotone_inc", "monotone_dec", "svt"}
+# projections whose second application is also put under the correspondence (two-step call sequence: the implementation's own output is fed back,
+# through the same route / keyword arguments, and compared with the model on that input; cf. C12_proximal_operator_idempotent)
+SECOND = {"non_negative", "simplex", "monotone_inc", "monotone_dec", "hard", "normalized_sparsity", "normalize"}
 PROJECTION = {"non_negative", "simplex", "monotone_inc", "monotone_dec", "hard", "soft_sparsity", "unimodality", "normalized_sparsity", "normalize", "procrustes"}
 
 
@@ -618,6 +621,16 @@ def gen_cases(tier, rng):
                         elif u < 0.45:
                             name, par, route = gen_spec_route(rng, name, par, a, kind, scale)
                     yield name, par, a, route, kind, klass
+        # tensors with three dimensions: operators on the flattened tensor accept them, the column-wise ones must refuse (smoothness: outside the model)
+        for shape in (((2, 2, 2), (3, 1, 2)) if rep == 0 else ()) if tier == "quick" else ((2, 2, 2), (3, 1, 2), (2, 3, 2), (1, 2, 3)):
+            for klass in ("signed", "ties") if tier == "quick" else ("signed", "ties", "zeros"):
+                for name in NAMES:
+                    if name in ("smoothness", "soft_arr"):
+                        continue
+                    a, kind, scale = gen_array(rng, name, shape, klass)
+                    par = gen_par(rng, name, a, kind, scale)
+                    route = "dispatch" if (can_dispatch(name, par) and (name in ("non_negative", "normalize") or rng.random() < 0.4)) else "direct"
+                    yield name, par, a, route, kind, klass
         if rep < 2:
             yield from gen_reject_cases(rng)
         for shape in (mshapes_q if tier == "quick" else mshapes_t):
@@ -702,7 +715,14 @@ def routed_lit(name, par, a, route):
     return f"(ORouted {head} {C.q(aux)})"
 
 
-def op_lit(name, par, a, tape=None, route=None):
+ND_REFUSED = {"monotone_inc", "monotone_dec", "unimodality", "simplex", "soft_sparsity"}     # raise ValueError for more than two dimensions
+
+
+def op_lit(name, par, a, tape=None, route=None, raised=False):
+    if np.asarray(a).ndim > 2:
+        # a tensor with three or more dimensions, presented as first axis x the rest: ONd ndim raised <the call>
+        flat2 = np.asarray(a).reshape(np.asarray(a).shape[0], -1)
+        return f"(ONd {np.asarray(a).ndim}%nat {'true' if raised else 'false'} {op_lit(name, par, flat2, tape, route)})"
     if isinstance(route, dict):
         return routed_lit(name, par, a, route)     # also n_const=None: the early exit is the model's (Model/ProxDispatch.selected_pop)
     flat = [float(x) for x in np.asarray(a, float).reshape(-1)]
@@ -800,6 +820,17 @@ def evaluate(chk, name, par, a, route, kind, klass, rng, cases, meta):
         else:
             chk.finding(ep, inputs, f"proximal_operator crashed instead of refusing the request: {out}", "reject_clean")
         return
+    if a.ndim > 2 and name in ND_REFUSED:
+        # more than two dimensions: the operator must refuse (ValueError); compared with the Coq model (ndim_ok) only
+        if (st == "reject" and str(out).startswith("ValueError")) or st == "ok":
+            outv = a if st != "ok" else np.asarray(out)
+            if outv.size == a.size and np.all(np.isfinite(outv)):
+                cid = len(cases)
+                cases.append(f"({cid}%nat, {op_lit(name, par, a, None, route, raised=(st != 'ok'))}, {rows_lit(a, a.shape[0])}, {rows_lit(outv, a.shape[0])}, {C.q(0)}, {C.q(0)})")
+                meta.append(inputs)
+        else:
+            chk.finding(ep, inputs, f"the operator crashed instead of refusing a tensor with {a.ndim} dimensions: {out}", "reject_clean")
+        return
     if st != "ok":
         chk.finding(ep, inputs, f"the operator raised on a valid input: {out}", name + "_feasible")
         return
@@ -824,6 +855,10 @@ def evaluate(chk, name, par, a, route, kind, klass, rng, cases, meta):
         if cid % 401 == 0:
             chk.sample({"operator": name, "route": C.jsonable(route), "param": C.jsonable(par), "input": np.asarray(a).tolist(), "output": out.tolist(),
                         "comparison": "exact" if atol == 0 else "toleranced"})
+        if name in SECOND and klass != "second" and not fails and rng.random() < 0.15:
+            b = np.asarray(out, float).reshape(a.shape)
+            if in_domain(name, par, b):
+                evaluate(chk, name, par, b, route, "float", "second", rng, cases, meta)
 
 
 def merge_known():
@@ -855,52 +890,18 @@ def load_case(e):
     return e["op"], par, a, e.get("route", "direct")
 
 
-def parallel_print_assumptions(prop, names, nproc=8):
-    """local replacement of common.print_assumptions: the same question (Print Assumptions for every property theorem on the compiled
-    Props file) asked by several coqc processes at once (each Print Assumptions walks the whole Reals library: ~0.5 s per theorem)"""
-    import subprocess, shutil, re
-    base = os.path.join(C.BUILD, "pa", f"{os.getpid()}_C12"); shutil.rmtree(base, ignore_errors=True)
-    procs = []
-    for k in range(min(nproc, max(1, len(names)))):
-        part = names[k::nproc]
-        if not part:
-            continue
-        d = os.path.join(base, str(k)); os.makedirs(d, exist_ok=True)
-        fn = os.path.join(d, f"PA_{prop}.v")
-        with open(fn, "w") as f:
-            f.write(f"From TLV Require Import Props.{prop}.\n")
-            for n in part:
-                f.write(f'Goal True. idtac "@@BEGIN {n}". exact I. Qed.\nPrint Assumptions {n}.\n')
-            f.write('Goal True. idtac "@@END". exact I. Qed.\n')
-        procs.append(subprocess.Popen(["timeout", "600", "coqc", "-R", os.path.join(C.COQ, "theories"), "TLV", fn],
-                                      stdout=subprocess.PIPE, stderr=subprocess.PIPE, text=True, cwd=d))
-    res, outs = {}, []
-    for pr in procs:
-        out, err = pr.communicate()
-        outs.append(out + (err if pr.returncode != 0 else ""))
-        if pr.returncode != 0:
-            continue
-        chunks = re.split(r"@@BEGIN (\w+)\n", out)
-        for i in range(1, len(chunks), 2):
-            name, body = chunks[i], chunks[i + 1].split("@@END")[0]
-            if "Closed under the global context" in body:
-                res[name] = []
-            else:
-                axs = re.findall(r"^([A-Za-z_][\w.']*)\s*:", body, re.M)
-                res[name] = sorted(a for a in set(axs) if a not in ("Axioms", "Variables", "Hypotheses"))
-    shutil.rmtree(base, ignore_errors=True)
-    return res, "\n".join(outs)
-
-
 def run(chk):
     rng = random.Random(chk.seed)
     merge_known()
-    C.print_assumptions = parallel_print_assumptions
     chk.build_proofs()
     drop_header_pseudo_axiom(chk)
     # corr:C12-static: the dispatch table regenerated from the current source by an ast translation, compared with the model inside Coq
+    # (runs beside the case generation and the case shards; joined before the verdict)
+    import threading
     from harness.props import C12_static
-    chk.cov["static_dispatch_tie"] = C12_static.run_static(chk)
+    static_box = {}
+    static_thread = threading.Thread(target=lambda: static_box.update(info=C12_static.run_static(chk)))
+    static_thread.start()
     C.reset_backends()
     cases, meta = [], []
     # corpus first
@@ -923,9 +924,14 @@ def run(chk):
     chk.cov["rule"] = ("14 operator configurations x tensor shapes (vectors of length 1-8, matrices up to 5x3; thorough: up to 12 / 9x2, more repetitions) x value classes "
                        "{signed, all-negative, all-positive, ties in magnitude, zeros, sorted, small (inside the sets), constant, one spike, rise-then-fall} x scales 1e-3..1e3 x "
                        "{dyadic inputs (exact comparison where the code is division-free), arbitrary doubles (toleranced 1e-9)} x {direct call, proximal_operator with a scalar "
-                       "constraint, proximal_operator with dict / list valued constraints on 1-4 modes, one or two constraints, every order (unconstrained mode = identity)}; "
+                       "constraint, proximal_operator with dict / list valued constraints on 1-4 modes, one or two constraints, every order (unconstrained mode = identity)}; for about one in seven projection calls the output is fed back through the same "
+                       "call (class 'second': a two-step sequence under the correspondence); "
                        "svd_thresholding / procrustes on matrices up to 4x4 (thorough 6x6) incl. rank-1, against the recorded answer of tl.truncated_svd; "
                        "a case is non-trivial if the tensor has more than one entry and is not all zero; distinct key = (operator, shape, class, kind, route)")
+    static_thread.join()
+    if "info" not in static_box:
+        chk.broken.append({"what": "corr:C12-static did not complete", "detail": "the static-tie thread ended without a result"})
+    chk.cov["static_dispatch_tie"] = static_box.get("info")
     for b in broken:
         chk.broken.append({"what": "correspondence corr:C12 shard not evaluated", "detail": b})
     for f in chk.findings:
